@@ -1,8 +1,9 @@
 """C05 - memory safety of L/U storage and work arrays (structural clauses, DESIGN.md §4 C05)."""
-from ..rules import alloc
+from ..rules import alloc, layout
 
 
 def run(ctx, rep):
     mod = ctx.mod
     alloc.rule_O7_bound_before_bump(mod, rep)
     alloc.rule_who_writes_counters(mod, rep)
+    layout.rule_work_layout(mod, rep)
